@@ -39,9 +39,10 @@ def main():
 // draws (work stealing, sema tickets) keep using the per-M generator so that
 // idle spinning cannot perturb the stream.
 var verifRand = struct {
-	on bool
-	s  uint64
-	n  uint64
+	on   bool
+	s    uint64
+	n    uint64
+	wake uint32 // permille of wake-ups of simulated goroutines that go to the tail of the run queue instead of runnext
 }{on: true, s: 0x5eed5eed5eed5eed} // on from process start: maps created by package initialisers get reproducible seeds too
 
 //go:nosplit
@@ -97,6 +98,14 @@ func verifReseed(seed uint64, on bool) uint64 {
 	return n
 }
 
+// verifSetWake sets the wake-up law: the permille of wake-ups (channel, mutex,
+// WaitGroup, Cond, timer ...) after which the woken goroutine does NOT run
+// next but queues behind the goroutines that are already runnable - the order
+// a multi-P runtime produces all the time and the single-P one never does.
+//
+//go:linkname verifSetWake
+func verifSetWake(permille uint32) { verifRand.wake = permille }
+
 // verifDraws reports the number of draws made so far (for the event log).
 //
 //go:linkname verifDraws
@@ -119,7 +128,7 @@ func verifDraws() uint64 { return verifRand.n }
     s = patch(s,
         "\t\ttrace.GoUnpark(gp, traceskip)\n\t\ttraceRelease(trace)\n\t}\n\trunqput(mp.p.ptr(), gp, next)\n",
         "\t\ttrace.GoUnpark(gp, traceskip)\n\t\ttraceRelease(trace)\n\t}\n"
-        "\tif verifRand.on && gp.bubble == nil {\n\t\tnext = false // VERIF overlay: outsiders never displace a simulated goroutine from runnext\n\t}\n"
+        "\tif verifRand.on && gp.bubble == nil {\n\t\tnext = false // VERIF overlay: outsiders never displace a simulated goroutine from runnext\n\t} else if verifRand.on && next && verifRand.wake != 0 && verifrandn(1000) < verifRand.wake {\n\t\tnext = false // VERIF overlay: seeded wake-up order\n\t}\n"
         "\trunqput(mp.p.ptr(), gp, next)\n", "proc.go/ready")
     s = patch(s,
         "\t\trunqput(pp, gp, true)\n\t} else {\n\t\tlock(&sched.lock)\n\t\tglobrunqput(gp)\n\t\tunlock(&sched.lock)\n\t}\n",
